@@ -700,6 +700,40 @@ func c13Oracle(c *oracleCtx) {
 			return ""
 		})
 	}
+	// derived (user) containers nested inside plain ones are converted like any other container
+	c.check("native:derived", true, func() string {
+		do := newDObject("k", 1, "l", NewList(2))
+		dl := newDList("x", NewObject("y", nil))
+		root := NewObject("o", do, "l", dl, "n", NewList(do, dl))
+		n := root.NativeDict()
+		if hasContainer(n) {
+			return "NativeDict of a tree with nested derived containers still contains an anytype container"
+		}
+		want := map[string]any{"o": map[string]any{"k": 1, "l": []any{2}}, "l": []any{"x", map[string]any{"y": nil}},
+			"n": []any{map[string]any{"k": 1, "l": []any{2}}, []any{"x", map[string]any{"y": nil}}}}
+		if !reflect.DeepEqual(n, want) {
+			return fmt.Sprintf("NativeDict = %#v, want %#v", n, want)
+		}
+		if s := NewList(do).NativeSlice(); hasContainer(s) {
+			return "NativeSlice of a list holding a derived object contains a container"
+		}
+		return ""
+	})
+	c.check("native:empties", true, func() string {
+		// exports of empty containers are independent of each other
+		a := NewObject("e", NewObject()).NativeDict()
+		a["e"].(map[string]any)["stray"] = 1
+		b := NewObject("e", NewObject()).NativeDict()
+		if len(b["e"].(map[string]any)) != 0 {
+			return "modifying one native export changed a later export of another empty object"
+		}
+		s := NewList(NewList()).NativeSlice()
+		_ = append(s[0].([]any), 1)
+		if len(NewList(NewList()).NativeSlice()[0].([]any)) != 0 {
+			return "exports of empty lists share storage"
+		}
+		return ""
+	})
 	natives := []any{
 		[]any{}, []any{1, "a", nil, true, 2.5}, []any{[]any{1, []any{2}}, map[string]any{"k": []any{}}},
 		map[string]any{}, map[string]any{"a": 1, "": nil, "n": map[string]any{"l": []any{1.5, "x"}}},
